@@ -40,13 +40,15 @@ def load_known():
 
 
 def spawn(prop_id, tier, base_seed, mode, count, nworkers, outdir, soft_deadline, hashseed="0",
-          offset=0, numba_threads=None):
+          offset=0, numba_threads=None, seed_tag=None, group=""):
     procs = []
     for w in range(nworkers):
-        out = os.path.join(outdir, f"{mode}-{offset}-{w}.jsonl")
+        out = os.path.join(outdir, f"{mode}{group}-{offset}-{w}.jsonl")
         cmd = [PY, "-m", "ticcsim.worker", "--prop", prop_id, "--tier", tier,
                "--base-seed", str(base_seed), "--stripe", f"{w}/{nworkers}", "--count", str(count),
                "--out", out, "--soft-deadline", str(soft_deadline), "--offset", str(offset)]
+        if seed_tag:
+            cmd += ["--seed-tag", seed_tag]
         env = core.mode_env(mode, hashseed=hashseed, numba_threads=numba_threads)
         log = open(out + ".log", "w")
         p = subprocess.Popen(cmd, env=env, cwd=core.VERIF_ROOT, stdout=log, stderr=subprocess.STDOUT)
@@ -124,9 +126,23 @@ def run_check(prop_id, tier, base_seed=None):
         nw = min(NCPU, max(1, spec["workers"]))
         procs += spawn(prop_id, tier, base_seed, mode, spec["count"], nw, outdir, soft,
                        hashseed=spec.get("hashseed", "0"), offset=spec.get("offset", 0),
-                       numba_threads=spec.get("numba_threads"))
+                       numba_threads=spec.get("numba_threads"), seed_tag=spec.get("seed_tag"),
+                       group=mode_key if mode_key != mode else "")
     records, harness, truncated = gather(procs, hard)
     wall_runs = time.time() - t0
+
+    # cross-record oracle (e.g. the same seeds in several execution modes)
+    cross = getattr(prop, "cross_check", None)
+    if cross is not None:
+        try:
+            extra = cross(records)
+        except Exception:
+            import traceback
+            harness.append("cross_check crashed: " + traceback.format_exc()[-1200:])
+            extra = []
+        if extra:
+            records.append(dict(idx=-1, seed=int(base_seed), mode=extra[0].get("mode", "nojit"), findings=extra,
+                                harness=[], sig=None, nontrivial=False))
 
     known = load_known()
     violations, known_hits = [], {}
@@ -143,11 +159,12 @@ def run_check(prop_id, tier, base_seed=None):
         confirmed = None
         for r, f in items[:3]:
             path = os.path.join(OUT_ROOT, "replays", f"{pid}-{key.replace(':', '_').replace('/', '_')}-{r['seed']}.json")
-            rp = dict(property=pid, key=key, detail=f["detail"], mode=r["mode"], seed=r["seed"],
+            fmode = f.get("mode") or r["mode"]
+            rp = dict(property=pid, key=key, detail=f["detail"], mode=fmode, seed=r["seed"],
                       case=f["case"], extra=f.get("extra", {}))
             with open(path, "w") as fh:
                 fh.write(dumps(rp))
-            ok, info = confirm(path, r["mode"])
+            ok, info = confirm(path, fmode)
             if ok:
                 confirmed = (path, f)
                 break
